@@ -160,9 +160,13 @@ class GroupOutput(PartFlowController):
             raise RuntimeError(f'Part {part.name} is trying to exit Group {self._group.name}'
                                +f' but does not contain information on which GroupPath to use.')
 
+        # The part leaves this group before it is handed over so that a
+        # downstream GroupPath (of another or an enclosing group) sees a
+        # correct path stack; it re-enters if nobody accepts it.
+        part._group_pathing.pop()
         did_pass = last_entered_group._pass_part_downstream(part)
-        if did_pass:
-            part._group_pathing.pop()
+        if not did_pass:
+            part._group_pathing.append(last_entered_group)
         return did_pass
 
     def _add_downstream(self, downstream):
